@@ -17,7 +17,7 @@ from .ops import int_binop, concat_bytes
 
 BUILTIN_FUNCS = {'len', 'isinstance', 'callable', 'bytes', 'bytearray', 'int', 'str', 'repr', 'range', 'reversed',
                  'enumerate', 'abs', 'min', 'max', 'sum', 'all', 'any', 'list', 'tuple', 'dict', 'type', 'iter', 'next',
-                 'zip', 'hasattr', 'getattr', 'bool', 'id', 'hex', 'sorted', 'print', 'object', 'super', 'format', 'slice'}
+                 'zip', 'hasattr', 'getattr', 'bool', 'id', 'hex', 'sorted', 'print', 'object', 'super', 'format', 'slice', 'open'}
 BUILTIN_TYPES = {'int', 'bytes', 'bytearray', 'str', 'bool', 'dict', 'list', 'tuple', 'type', 'object', 'float', 'slice'}
 MODULES = {'io', 'struct', 'itertools', 'binascii', 'collections', 'pickle', 'sys', 'os', 'hashlib', 'operator', 're'}
 
@@ -565,6 +565,10 @@ class CallModels:
             if m[0] == 'function':
                 return self.call_contract(eng, m[1], None, args, kws, st, node)
             if m[0] == 'method':
+                if self.interface is not None:
+                    r = self.interface.abstract_self_call(eng, m[1], f.bound, args, kws, st, node)
+                    if r is not None:
+                        return r
                 return self.call_contract(eng, m[1], f.bound, args, kws, st, node)
             if m[0] == 'classmethod':
                 # Class.method(obj, ...) : explicit self
